@@ -17,7 +17,7 @@ const maxInlineDepth = 10
 
 func isSpecHelper(f *types.Func) bool {
 	switch f.Name() {
-	case "old", "forallInt", "existsInt", "forallReal", "existsReal", "implies", "assert", "assume", "iff", "fresh", "memEq", "lemmaUse", "wfd", "bnd", "sameSlice", "sameSlice16", "iterStart", "allocd", "ghostRank", "rangeIndex", "inPlace", "same", "sharesMem", "wroteSeq", "wroteLast":
+	case "old", "forallInt", "existsInt", "forallReal", "existsReal", "implies", "assert", "assume", "iff", "fresh", "memEq", "lemmaUse", "wfd", "bnd", "sameSlice", "sameSlice16", "iterStart", "allocd", "ghostRank", "rangeIndex", "inPlace", "same", "sharesMem", "wroteSeq", "wroteLast", "callCount", "callArgF", "callArgI", "callArgB":
 		return f.Pkg() != nil && strings.Contains(f.Pkg().Path(), "tdewolff/canvas")
 	}
 	return false
@@ -80,6 +80,14 @@ func (x *Exec) callMulti(s *State, call *ast.CallExpr) []*Term {
 						}
 					}
 				}
+			}
+		}
+		// a method of an interface declared in the verified module: when every implementation in the module is
+		// side-effect free (purity analysis), the call is a deterministic function of (receiver, arguments, epoch)
+		// and writes nothing (closed world: implementations outside the module are not considered; listed as an assumption)
+		if sig, ok := o.Type().(*types.Signature); ok && sig.Recv() != nil && isInterface(sig.Recv().Type()) && x.eng.funcs[o.Origin()] == nil {
+			if vals, ok := x.callPureInterface(s, o, sig, call); ok {
+				return vals
 			}
 		}
 		return x.callFunc(s, o, call)
@@ -635,6 +643,9 @@ func (x *Exec) callFunc(s *State, fn *types.Func, call *ast.CallExpr) []*Term {
 			return res
 		}
 	}
+	if x.eng.funcs[fn.Origin()] == nil && x.dry == 0 {
+		x.recordCall(s, fn, recv, call)
+	}
 	if res, ok := x.callLibrary(s, fn, recv, args, call); ok {
 		return res
 	}
@@ -1071,6 +1082,10 @@ func (x *Exec) callModular(s *State, fi *FuncInfo, ct *Contract, recv *Term, arg
 	if ct.Logged {
 		s.log = append(s.log, "@"+fi.Key)
 	}
+	if !(ct.HasAssign && len(ct.Assigns) == 0) && !ct.Pure {
+		// the callee may call out of the module itself: what it called is unknown here
+		s.calls, s.callsOpen = nil, true
+	}
 	pre := s.clone()
 	// frame
 	x.applyAssigns(s, fi, ct, env, sig, recv)
@@ -1398,6 +1413,39 @@ func (x *Exec) callSpecHelper(s *State, fn *types.Func, call *ast.CallExpr) []*T
 			}
 		}
 		return []*Term{BoolLit(found)}
+	case "callCount":
+		// number of recorded calls whose name ends in the pattern; unknown when the log has an unknown prefix
+		if tv, ok := x.tv(call.Args[0]); ok && tv.Value != nil && tv.Value.Kind() == constant.String && !s.callsOpen {
+			n := 0
+			for k := 0; ; k++ {
+				if x.findCall(s, constant.StringVal(tv.Value), k) == nil {
+					break
+				}
+				n++
+			}
+			return []*Term{IntLit(int64(n))}
+		}
+		return []*Term{x.freshVar("callCount", SInt)}
+	case "callArgF", "callArgI", "callArgB":
+		want := map[string]*Sort{"callArgF": SReal, "callArgI": SInt, "callArgB": SBool}[fn.Name()]
+		tv, ok := x.tv(call.Args[0])
+		kv, ok2 := x.tv(call.Args[1])
+		iv, ok3 := x.tv(call.Args[2])
+		if ok && ok2 && ok3 && tv.Value != nil && kv.Value != nil && iv.Value != nil && tv.Value.Kind() == constant.String {
+			k, _ := constant.Int64Val(kv.Value)
+			i, _ := constant.Int64Val(iv.Value)
+			if c := x.findCall(s, constant.StringVal(tv.Value), int(k)); c != nil && int(i) < len(c.args) && i >= 0 && c.args[i] != nil {
+				a := c.args[i]
+				if a.S == want {
+					return []*Term{a}
+				}
+				if want == SReal && a.S == SInt {
+					return []*Term{ToReal(a)}
+				}
+			}
+		}
+		x.note("ghost call log: %s not resolvable here (unknown prefix, merge, or no such call)", exprString(call))
+		return []*Term{x.freshVar("callArg", want)}
 	case "sharesMem":
 		a := x.eval(s, call.Args[0])
 		b := x.eval(s, call.Args[1])
@@ -1637,6 +1685,121 @@ func (x *Exec) patherWf(s *State, call *ast.CallExpr, sig *types.Signature) []pa
 		out = append(out, patherArg{ref: ref, si: st, fi: fidx, was: was})
 	}
 	return out
+}
+
+// recordCall appends a call into code outside the verified module to the ghost call log (receiver first)
+func (x *Exec) recordCall(s *State, fn *types.Func, recv *Term, call *ast.CallExpr) {
+	rec := callRec{name: fn.FullName()}
+	if recv != nil {
+		rec.args = append(rec.args, recv)
+		rec.lits = append(rec.lits, "")
+	}
+	x.dry++
+	for _, a := range call.Args {
+		var t *Term
+		func() {
+			defer func() {
+				if recover() != nil {
+					t = nil
+				}
+			}()
+			t = x.eval(s, a)
+		}()
+		lit := ""
+		if tv, ok := x.tv(a); ok && tv.Value != nil && tv.Value.Kind() == constant.String {
+			lit = constant.StringVal(tv.Value)
+		}
+		rec.args = append(rec.args, t)
+		rec.lits = append(rec.lits, lit)
+	}
+	x.dry--
+	s.calls = append(s.calls, rec)
+}
+
+// findCall resolves (name suffix [| literal string argument], k) in the ghost call log: k >= 0 counts from the start
+// (only when the log has no unknown prefix), k < 0 from the end
+func (x *Exec) findCall(s *State, pat string, k int) *callRec {
+	name, lit := pat, ""
+	if i := strings.Index(pat, "|"); i >= 0 {
+		name, lit = pat[:i], pat[i+1:]
+	}
+	var idx []int
+	for i, c := range s.calls {
+		if !strings.HasSuffix(c.name, name) {
+			continue
+		}
+		if lit != "" {
+			ok := false
+			for _, l := range c.lits {
+				if l == lit {
+					ok = true
+				}
+			}
+			if !ok {
+				continue
+			}
+		}
+		idx = append(idx, i)
+	}
+	if k >= 0 {
+		if s.callsOpen || k >= len(idx) {
+			return nil
+		}
+		return &s.calls[idx[k]]
+	}
+	if -k > len(idx) {
+		return nil
+	}
+	return &s.calls[idx[len(idx)+k]]
+}
+
+func (x *Exec) callPureInterface(s *State, o *types.Func, sig *types.Signature, call *ast.CallExpr) ([]*Term, bool) {
+	if o.Pkg() == nil || !strings.Contains(o.Pkg().Path(), "tdewolff/canvas") {
+		return nil, false
+	}
+	it, ok := sig.Recv().Type().Underlying().(*types.Interface)
+	if !ok {
+		return nil, false
+	}
+	impls := 0
+	for _, fi := range x.eng.funcs {
+		if fi.Obj.Name() != o.Name() {
+			continue
+		}
+		fs, ok := fi.Obj.Type().(*types.Signature)
+		if !ok || fs.Recv() == nil {
+			continue
+		}
+		rt := fs.Recv().Type()
+		if !types.Implements(rt, it) {
+			if p, ok := rt.(*types.Pointer); !ok || !types.Implements(p, it) {
+				continue
+			}
+		}
+		impls++
+		if !fi.pure {
+			return nil, false
+		}
+	}
+	if impls == 0 {
+		return nil, false
+	}
+	sel, ok := unparen(call.Fun).(*ast.SelectorExpr)
+	if !ok {
+		return nil, false
+	}
+	as := []*Term{x.eval(s, sel.X)}
+	as = append(as, x.evalArgs(s, call, sig)...)
+	as = append(as, x.epochOf(s))
+	x.eng.usedTrusted["interface "+o.FullName()] = "every implementation in the module is side-effect free (purity analysis); implementations outside the module are not considered"
+	var out []*Term
+	for i := 0; i < sig.Results().Len(); i++ {
+		rt := sig.Results().At(i).Type()
+		v := x.uf(fmt.Sprintf("imeth_%s_%d", sanitize(o.FullName()), i), x.eng.tm.sortOf(rt), as...)
+		s.assume(x.typeInv(s, v, rt, 0))
+		out = append(out, v)
+	}
+	return out, true
 }
 
 // callStatic: call of a known function with an already evaluated receiver
